@@ -91,7 +91,7 @@ func mustPass(fd *ast.FuncDecl, target func(n ast.Node) bool) (bool, token.Pos, 
 }
 
 func runC03(c *Ctx) {
-	c.Load("lang")
+	c.Load("lang", streamsPkg)
 	pk := c.Pkg("lang")
 	info := pk.TypesInfo
 
@@ -148,6 +148,66 @@ func runC03(c *Ctx) {
 			return true
 		})
 		c.Check(recv, "R03a", "waitProcess:receives", fd.Pos(), "waitProcess blocks on WaitForTermination")
+	}
+
+	c.Rule("R03d", "output order: executeProcess's final destroyProcess(p) is preceded by the wait loop `for !p.Previous.HasTerminated() {…}` (a stage that finishes early must not let following commands overtake its slower upstream stage); the non-draining readers lift back-pressure (max=0) before they start waiting (otherwise producer and consumer wait on each other — the program never finishes)")
+	if fd, _ := c.MustFunc("R03d", "lang", "", "executeProcess"); fd != nil {
+		// last top-level destroyProcess call and the statement before it
+		idx := -1
+		for i, s := range fd.Body.List {
+			if es, ok := s.(*ast.ExprStmt); ok {
+				if call, ok := es.X.(*ast.CallExpr); ok && callIs(info, call, mx("lang"), "", "destroyProcess") {
+					idx = i
+				}
+			}
+		}
+		ok := false
+		if idx > 0 {
+			for _, s := range fd.Body.List[:idx] {
+				fs, isFor := s.(*ast.ForStmt)
+				if !isFor || fs.Cond == nil {
+					continue
+				}
+				for _, f := range factsOf([]Guard{{Cond: fs.Cond}}) {
+					if call, isC := unparen(f.E).(*ast.CallExpr); isC && !f.True {
+						if se, isS := call.Fun.(*ast.SelectorExpr); isS && se.Sel.Name == "HasTerminated" {
+							if inner, isI := unparen(se.X).(*ast.SelectorExpr); isI && inner.Sel.Name == "Previous" {
+								if id, isId := inner.X.(*ast.Ident); isId && isParam(info, fd, id) {
+									// the loop must not contain an exit other than its condition
+									hasBreak := false
+									ast.Inspect(fs.Body, func(x ast.Node) bool {
+										switch y := x.(type) {
+										case *ast.BranchStmt:
+											if y.Tok == token.BREAK || y.Tok == token.GOTO {
+												hasBreak = true
+											}
+										case *ast.ReturnStmt:
+											hasBreak = true
+										}
+										return true
+									})
+									ok = !hasBreak
+								}
+							}
+						}
+					}
+				}
+			}
+		}
+		pos := fd.Pos()
+		if idx >= 0 {
+			pos = fd.Body.List[idx].Pos()
+		}
+		c.Check(ok, "R03d", "executeProcess:waits-for-previous", pos, "before destroying itself executeProcess loops until p.Previous.HasTerminated()")
+	}
+	if spk := c.Pkg(streamsPkg); spk != nil {
+		for _, name := range []string{"ReadAll", "ReadFrom"} {
+			if fd, _ := c.MustFunc("R03d", streamsPkg, "Stdin", name); fd != nil {
+				maxZeroRule = "R03d"
+				c.checkMaxZeroBeforeLoop(spk.TypesInfo, fd)
+				maxZeroRule = "R01e"
+			}
+		}
 	}
 
 	c.Rule("R03b", "E2c path rule: in each scheduler START(k) directly after START(k-1) needs a synchronous waitProcess(k-1) on the path unless procs[k].IsMethod is known true; the block's exit number is read from the last process after waiting for it")
